@@ -638,33 +638,32 @@ theorem locsOK_valid {orig : Bytes} {ot : List TermLocation} (h : locsOK orig ot
   simp only [locsOK, Bool.and_eq_true] at h
   exact h.1.1
 
-/-- the top fragment contains a match when the text never makes the fragmenter bail -/
-theorem best_top_score (v : Variant) (orig : Bytes) (fsize num : Int) (locs : List TermLocation)
-    (H : NoBail v.sizeGuard orig) (hok : locsOK orig (orderTermLocations locs) = true) (hf : 1 ≤ fsize) (hnum : 1 ≤ num)
-    (hfit : ∃ l ∈ locs, fits orig fsize l = true) :
-    ∃ top rest, bestSelection v orig fsize num locs = some (top :: rest) ∧ 1 ≤ top.score := by
-  obtain ⟨l, hl, hlfit⟩ := hfit
+/-- the top fragment contains a match when the text never makes the fragmenter bail; `ot` = the ordered slice,
+any arrangement of (some of) the map's locations that is sorted by Start -/
+theorem best_top_score (v : Variant) (orig : Bytes) (fsize num : Int) (locs ot : List TermLocation)
+    (hsub : ∀ x ∈ ot, x ∈ locs)
+    (H : NoBail v.sizeGuard orig) (hok : locsOK orig ot = true) (hf : 1 ≤ fsize) (hnum : 1 ≤ num)
+    (hfit : ∃ l ∈ ot, fits orig fsize l = true) :
+    ∃ top rest, bestSelectionOrd v orig fsize num locs ot = some (top :: rest) ∧ 1 ≤ top.score := by
+  obtain ⟨l, hlo, hlfit⟩ := hfit
   simp only [locsOK, Bool.and_eq_true, List.all_eq_true] at hok
   obtain ⟨⟨_, hsorted⟩, hall⟩ := hok
-  have hlo : l ∈ orderTermLocations locs := mem_orderTermLocations.mpr hl
-  have hfil : (if v.locGuard = true then (orderTermLocations locs).filter usable else orderTermLocations locs) =
-      orderTermLocations locs := by
+  have hfil : (if v.locGuard = true then ot.filter usable else ot) = ot := by
     split
     · apply List.filter_eq_self.mpr
       intro x hx
       have := (locOK_iff orig x).mp (hall x hx)
       exact (usable_iff x).mpr ⟨this.1, this.2.1⟩
     · rfl
-  obtain ⟨frs, hfrs, f, hfm, l', hl', h1, h2⟩ := fragmentLoop_good H fsize hf l hlfit (orderTermLocations locs) 0
+  obtain ⟨frs, hfrs, f, hfm, l', hl', h1, h2⟩ := fragmentLoop_good H fsize hf l hlfit ot 0
     (Bd_zero orig) hlo hall hsorted
-  have hfrag : fragment v orig fsize (orderTermLocations locs) = some frs := by
+  have hfrag : fragment v orig fsize ot = some frs := by
     unfold fragment
     rw [hfil]
-    split
-    · rename_i heq
-      rw [heq] at hlo; simp at hlo
-    · exact hfrs
-  unfold bestSelection
+    cases ot with
+    | nil => simp at hlo
+    | cons a r => exact hfrs
+  unfold bestSelectionOrd
   rw [hfrag]
   simp only [Option.map_some]
   have hne : (frs.map fun f => ({ f with score := scoreOf locs f } : Fragment)) ≠ [] := by
@@ -676,7 +675,7 @@ theorem best_top_score (v : Variant) (orig : Bytes) (fsize num : Int) (locs : Li
   have hin : ({ f with score := scoreOf locs f } : Fragment) ∈ frs.map fun f => ({ f with score := scoreOf locs f } : Fragment) :=
     List.mem_map.mpr ⟨f, hfm, rfl⟩
   have := hmax _ hin
-  have hs := scoreOf_pos locs f l' (mem_orderTermLocations.mp hl') h1 h2
+  have hs := scoreOf_pos locs f l' (hsub l' hl') h1 h2
   simp only [] at this
   omega
 
